@@ -13,9 +13,64 @@ type IntrospectionResolver struct {
 	Variables map[string]interface{}
 }
 
+// applyDirectives returns the selection without what @skip and @include exclude for this request
+func (ir *IntrospectionResolver) applyDirectives(selectionSet ast.SelectionSet) ast.SelectionSet {
+	var result ast.SelectionSet
+	for _, s := range selectionSet {
+		switch s := s.(type) {
+		case *ast.Field:
+			if ir.isExcluded(s.Directives) {
+				continue
+			}
+			field := *s
+			field.SelectionSet = ir.applyDirectives(s.SelectionSet)
+			result = append(result, &field)
+		case *ast.InlineFragment:
+			if ir.isExcluded(s.Directives) {
+				continue
+			}
+			fragment := *s
+			fragment.SelectionSet = ir.applyDirectives(s.SelectionSet)
+			result = append(result, &fragment)
+		case *ast.FragmentSpread:
+			if s.Definition == nil || ir.isExcluded(s.Directives) {
+				continue
+			}
+			result = append(result, &ast.InlineFragment{
+				TypeCondition: s.Definition.TypeCondition,
+				SelectionSet:  ir.applyDirectives(s.Definition.SelectionSet),
+			})
+		}
+	}
+
+	return result
+}
+
+func (ir *IntrospectionResolver) isExcluded(directives ast.DirectiveList) bool {
+	for _, d := range directives {
+		if d.Name != "skip" && d.Name != "include" {
+			continue
+		}
+		arg := d.Arguments.ForName("if")
+		if arg == nil || arg.Value == nil {
+			continue
+		}
+		v, err := arg.Value.Value(ir.Variables)
+		if err != nil {
+			continue
+		}
+		if b, ok := v.(bool); ok && b == (d.Name == "skip") {
+			return true
+		}
+	}
+
+	return false
+}
+
 func (ir *IntrospectionResolver) ResolveIntrospectionFields(selectionSet ast.SelectionSet, schema *ast.Schema) map[string]interface{} {
 	introspectionResult := make(map[string]interface{})
 	var isIntrospection bool
+	selectionSet = ir.applyDirectives(selectionSet)
 	for _, f := range common.SelectionSetToFields(selectionSet, nil) {
 		switch f.Name {
 		case "__type":
